@@ -30,7 +30,7 @@ CLAIMED["C09"] = ("verif-tun", "DESIGN.md §3 C09",
 
 MGR_NOTE = ("Built with cargo feature verif-hooks (clock, timer, spawn, lock, hash-seed and jitter calls of the path manager go to the simulator; "
             "the managed-pair index is a model of scc::HashIndex with simulator-chosen reclamation). Trusted: internals of tokio Notify/broadcast, arc_swap; "
-            "paths are TestPathBuilder products (single up-segment routes, transit ASes in three ISDs); a third of the histories run in stack mode: sends and failure reports go through the real UdpScionSocket::send_to / recv_from loop with the stack's ScmpErrorHandler over a simulated underlay (hook H10), a hand-out being the path in the emitted packet; lookups are scripted (the real PathFetcherImpl/combinator is not in the loop). "
+            "paths are TestPathBuilder products (single up-segment routes, transit ASes in three ISDs); a third of the histories run in stack mode: sends and failure reports go through the real UdpScionSocket::send_to / recv_from loop with the stack's ScmpErrorHandler over a simulated underlay (hook H10), a hand-out being the path in the emitted packet; a tenth of the C06/C07 histories are whole-system histories (drawn pocketscion network with its control plane and real routers + the endhost stack in one AS; links fail under the traffic, the routers' SCMP errors travel back to the socket and the manager; outcome oracles: no datagram refused as expired at the instant it is sent (C06), the datagram after a learned interface failure does not meet the same failure when a cached path avoids it (C07)); lookups are scripted (the real PathFetcherImpl/combinator is not in the loop). "
             "Known findings listed in known_findings.json are reported as KNOWN-FINDING lines and matched by causal pattern, not by clause.")
 MGR_TECH = "deterministic simulation with fault injection (virtual-time baton scheduler over the real manager and worker task, seeded history/fault search, reference knowledge/penalty models, replayable choice vector, shrinking)"
 
